@@ -320,6 +320,134 @@ fn case_defaults(acc: &mut Acc) {
     acc.branch("defaults");
 }
 
+
+/// "Fields absent from p default to 0001-01-01, 00:00:00 and UTC", over the whole lattice of
+/// present/absent fields: date mode (any subset of year, month, day; or day-of-year with or without
+/// year) x any subset of hour, minute, second, sub-second x zone present or not, for each type.
+const LATTICE_VALUES: [(i64, u32, u32, u64, i32); 6] = [
+    (2024, 10, 27, 49_556_123_456_789, 19_800),
+    (2023, 2, 28, 86_399_999_999_999, -34_200),
+    (-44, 3, 15, 1_000_000_005, -3_600),
+    (1, 1, 1, 0, 0),
+    (9999, 12, 31, 43_200_000_000_000, 86_399),
+    (1970, 7, 4, 3_723_000_000_001, 28_378),
+];
+const LATTICE_DATE_MODES: u64 = 10; // 0..8: bitmask year=1, month=2, day=4; 8: day-of-year; 9: year + day-of-year
+const LATTICE_PER_VALUE: u64 = (LATTICE_DATE_MODES * 16 * 2) + LATTICE_DATE_MODES + 16 * 2;
+
+fn case_default_lattice(i: u64, acc: &mut Acc) {
+    let (y, mo, d, nod, off0) = LATTICE_VALUES[(i / LATTICE_PER_VALUE) as usize];
+    let r = i % LATTICE_PER_VALUE;
+    // (kind, date mode or none, time mask, zone)
+    let (kind, dmode, tmask, zone) = if r < LATTICE_DATE_MODES * 32 {
+        (2u8, Some(r / 32), (r % 32) / 2, r % 2 == 1)
+    } else if r < LATTICE_DATE_MODES * 32 + LATTICE_DATE_MODES {
+        (0u8, Some(r - LATTICE_DATE_MODES * 32), 0, false)
+    } else {
+        let q = r - LATTICE_DATE_MODES * 33;
+        (1u8, None, q / 2, q % 2 == 1)
+    };
+    let off = if zone { off0 } else { 0 };
+    // zone symbols narrower than xxxxx cannot carry seconds
+    let zsym = if off % 60 != 0 { "xxxxx" } else { "xxx" };
+    let day = match cal::valid_day(y, mo, d) {
+        Some(x) => x,
+        None => return,
+    };
+    let mut parts: Vec<&str> = vec![];
+    if let Some(m) = dmode {
+        if m < 8 {
+            if m & 1 != 0 {
+                parts.push("yyyy");
+            }
+            if m & 2 != 0 {
+                parts.push("MM");
+            }
+            if m & 4 != 0 {
+                parts.push("dd");
+            }
+        } else {
+            if m == 9 {
+                parts.push("yyyy");
+            }
+            parts.push("DDD");
+        }
+    }
+    for (bit, sym) in [(1u64, "HH"), (2, "mm"), (4, "ss"), (8, "nnnnn")] {
+        if tmask & bit != 0 {
+            parts.push(sym);
+        }
+    }
+    if zone {
+        parts.push(zsym);
+    }
+    let pattern = parts.join(" ");
+    // the value whose local fields are (y, mo, d, nod) at the offset
+    let (vday, vnod) = match kind {
+        0 => (day, 0u64),
+        1 => (0, (nod as i128 - off as i128 * ins::NS).rem_euclid(ins::DAY) as u64),
+        _ => ins::split(ins::join(day, nod) - off as i128 * ins::NS),
+    };
+    let text = match real_format(kind, vday, vnod, off, &pattern) {
+        Some(Out::Val(s)) => s,
+        _ => return,
+    };
+    // expected local fields after defaulting
+    let lf = ins::decompose(ins::join(day, nod));
+    let exp_day: Option<i64> = match dmode {
+        None => Some(0),
+        Some(m) if m < 8 => cal::valid_day(if m & 1 != 0 { y } else { 1 }, if m & 2 != 0 { mo } else { 1 }, if m & 4 != 0 { d } else { 1 }),
+        Some(m) => {
+            let yy = if m == 9 { y } else { 1 };
+            match (cal::astro(yy), cal::valid_day(yy, 1, 1)) {
+                (Some(a), Some(jan1)) if lf.doy <= cal::year_len(a) => Some(jan1 + lf.doy as i64 - 1),
+                _ => None,
+            }
+        }
+    };
+    let exp_day = match exp_day {
+        Some(x) => x,
+        None => return, // the defaulted date does not exist (29 February of year 1): not required to parse
+    };
+    let mut exp_nod: u64 = 0;
+    if tmask & 1 != 0 {
+        exp_nod += lf.hour as u64 * 3_600_000_000_000;
+    }
+    if tmask & 2 != 0 {
+        exp_nod += lf.minute as u64 * 60_000_000_000;
+    }
+    if tmask & 4 != 0 {
+        exp_nod += lf.second as u64 * 1_000_000_000;
+    }
+    if tmask & 8 != 0 {
+        exp_nod += lf.sub as u64;
+    }
+    acc.transitions += 2;
+    acc.states += 1;
+    let case = || json!({"kind": kind, "lattice": i, "pattern": pattern, "text": text});
+    let tyname = ["Date", "Time", "DateTime"][kind as usize];
+    let (got, expected): (Out<(Option<i128>, i32)>, (Option<i128>, i32)) = match kind {
+        0 => (flat(call(|| Date::parse(&text, &pattern).map(|v| (Some(ins::join(date_day(&v), 0)), 0)).map_err(|e| e.to_string()))), (Some(ins::join(exp_day, 0)), 0)),
+        1 => (flat(call(|| Time::parse(&text, &pattern).map(|v| (Some(v.as_nanos() as i128), off_secs(v.get_offset()))).map_err(|e| e.to_string()))), (Some((exp_nod as i128 - off as i128 * ins::NS).rem_euclid(ins::DAY)), off)),
+        _ => (flat(call(|| DateTime::parse(&text, &pattern).map(|v| (dt_instant(&v), off_secs(v.get_offset()))).map_err(|e| e.to_string()))), (Some(ins::join(exp_day, exp_nod) - off as i128 * ins::NS), off)),
+    };
+    if got != Out::Val(expected) {
+        acc.violation(&format!("{}::parse", tyname), "absent-fields-default", case(), format!("{:?}", expected), got.show());
+    } else {
+        acc.branch("lattice-defaults");
+        acc.nontrivial += 1;
+    }
+}
+
+fn flat<T>(o: Out<Result<T, String>>) -> Out<T> {
+    match o {
+        Out::Val(Ok(v)) => Out::Val(v),
+        Out::Val(Err(e)) => Out::Err(e),
+        Out::Panic(m) => Out::Panic(m),
+        Out::Err(e) => Out::Err(e),
+    }
+}
+
 pub fn run(ctx: &Ctx) -> i32 {
     let mut rep = Report::new(ctx);
     rep.rule = "states = distinct (pattern, value) pairs admitted by the quantifier's side conditions; transitions = real format -> parse -> format chains; parse must succeed, re-formatting must reproduce the string, full patterns must recover instant and offset, absent fields default; non-trivial = round trips of full date+time+zone patterns".into();
@@ -328,7 +456,7 @@ pub fn run(ctx: &Ctx) -> i32 {
         "two-digit years (yy) do not determine the year: for them only 'parses, and re-formats to the same text' is demanded, in patterns without fields derived from the full year (e, w, D, G), and 29 February of years before -9 is skipped (it is read back into the current century)".into(),
         "derived fields (G, q, w, e) appear only together with the fields that determine them".into(),
     ];
-    rep.require(&["reproduced", "full-pattern-instant-recovered", "defaults", "two-digit-year"]);
+    rep.require(&["reproduced", "full-pattern-instant-recovered", "defaults", "two-digit-year", "lattice-defaults"]);
     let pats = patterns();
     let vals = values(ctx.thorough);
     let thorough = ctx.thorough;
@@ -374,6 +502,7 @@ pub fn run(ctx: &Ctx) -> i32 {
             acc.branch("two-digit-year");
         }
     });
+    rep.sweep("absent fields: the whole present/absent lattice of date, time and zone fields x 6 values x 3 types", LATTICE_VALUES.len() as u64 * LATTICE_PER_VALUE, "every subset of {year, month, day} or day-of-year (with/without year) x every subset of {hour, minute, second, sub-second} x zone or none; the parsed value must equal the value with absent fields replaced by 0001-01-01 / 00:00:00 / UTC", |i, acc| case_default_lattice(i, acc));
     let mut acc = Acc::default();
     case_defaults(&mut acc);
     rep.acc.merge(acc);
@@ -384,7 +513,9 @@ pub fn run(ctx: &Ctx) -> i32 {
 pub fn replay(_op: &str, case: &Value, acc: &mut Acc) -> bool {
     let text = case["pattern"].as_str().unwrap().to_string();
     let kind = case["kind"].as_u64().unwrap();
-    if has_two_digit_year(&text) {
+    if let Some(i) = case["lattice"].as_u64() {
+        case_default_lattice(i, acc);
+    } else if has_two_digit_year(&text) {
         let zone = text.ends_with("xxx");
         let p = Pat { text, kind: kind as u8, full: false, zone_secs: false, zone, max_year_digits: 0, has_date: false, has_time: false };
         case_roundtrip(&p, case["day"].as_i64().unwrap(), case["nod"].as_str().unwrap().parse().unwrap(), case["off"].as_i64().unwrap() as i32, acc);
